@@ -200,6 +200,14 @@ AutoModeCompactInv == AtDone(LAMBDA j : AutoModeCompact(j.b, ObsOf(j)))
 HasMatrix(j) == j.stage \in {"place", "score", "choose", "format", "mask", "done"} /\ (j.stage = "done" => j.out = "Ok")
 FunctionPatternsInv == \A t \in Threads : HasMatrix(job[t]) =>
                           FunctionPatternsExact([n |-> job[t].lay.n, M |-> job[t].M], job[t].lay)
+\* C10 on the design, termination without liveness checking: every stage is one of the known ones (so it has an enabled
+\* action), and every step of a busy thread strictly increases a rank bounded by 23: a build returns after at most 23 steps
+StageNames == <<"resolve", "select", "segment", "terminate", "padbyte", "padcw", "ec", "interleave", "blank", "place", "score", "choose", "format", "mask", "done">>
+StageKnown == \A t \in Threads : job[t].stage = "idle" \/ \E k \in 1..Len(StageNames) : StageNames[k] = job[t].stage
+Rank(j) == IF j.stage = "idle" THEN 0
+           ELSE LET k == CHOOSE i \in 1..Len(StageNames) : StageNames[i] = j.stage IN
+                IF k < 11 THEN k ELSE IF k = 11 THEN 11 + j.next ELSE k + 7
+Progress == [][\A t \in Threads : job'[t] # job[t] => (job[t].stage = "idle" \/ job'[t].stage = "idle" \/ Rank(job'[t]) > Rank(job[t]))]_vars
 \* the staged encoder (segment, terminator, byte padding, pad codewords) equals the closed-form stream
 StagedEqualsClosedForm == \A t \in Threads : job[t].stage = "ec" =>
                              job[t].data = DataCodewordsOf(job[t].b.input, job[t].mode, job[t].v, job[t].e)
